@@ -17,7 +17,7 @@ import (
 // A mismatch that is reproduced by "every row is a partition of its own" gets the narrow signature
 // wrapped:defect:analytic-function-inside-JSON_OBJECT-sees-only-the-current-row.
 func init() {
-	core.Extend("C17", "family wrapped: 21 function forms x PARTITION BY none/p x ORDER BY none/o/o DESC as operand of (x), COALESCE(x, NULL), CASE WHEN TRUE THEN x END, JSON_OBJECT(x AS r), 12 expressions per SELECT, "+
+	core.Extend("C17", "family wrapped: 21 function forms x PARTITION BY none/p x ORDER BY none/o/o DESC as operand of (x), COALESCE(x, NULL), CASE WHEN TRUE THEN x END, JSON_OBJECT(x AS r), 12 calls under one wrapper per SELECT (thorough: also the four wrappers of a call side by side), "+
 		"on every table over the mentioned columns with cells in {NULL,1,2} (0 or 1 column: 0..4 rows, 2 columns: 0..3 rows, 3 columns: 0..2 rows; thorough one row more as multisets); "+
 		"oracle: the definitional model applied to the operand", c17WrappedRun)
 }
@@ -39,7 +39,12 @@ func c17WrappedForms() []anref.Call {
 	}
 }
 
-func c17WrappedPacks() map[int][]*c17FamPack {
+// c17WrappedPacks: per wrapper, the calls 12 per SELECT (every call once in its SELECT, so that the expression is the
+// only place the call occurs); mixed (thorough): also the four wrappers of one call side by side, 3 calls per SELECT,
+// where csvq computes the call once for all of them.
+func c17WrappedPacks(mixed bool) map[int][]*c17FamPack {
+	type key struct{ mask, wrapper int }
+	by := map[key][]c17FamItem{}
 	byMask := map[int][]c17FamItem{}
 	for _, base := range c17WrappedForms() {
 		for _, part := range [][]int{nil, {anref.ColP}} {
@@ -50,23 +55,33 @@ func c17WrappedPacks() map[int][]*c17FamPack {
 				if order != nil && base.Star {
 					continue // the manual gives COUNT(*) OVER a partition clause only
 				}
-				for _, w := range c17Wrappers {
+				for wi, w := range c17Wrappers {
 					c := base
 					c.Part, c.Order = part, order
 					m := c17Refs(&c)
-					byMask[m] = append(byMask[m], c17FamItem{Call: &c, SQL: w[1] + c.SQL() + w[2], Wrap: w[0]})
+					it := c17FamItem{Call: &c, SQL: w[1] + c.SQL() + w[2], Wrap: w[0]}
+					by[key{m, wi}] = append(by[key{m, wi}], it)
+					byMask[m] = append(byMask[m], it)
 				}
 			}
 		}
 	}
 	packs := map[int][]*c17FamPack{}
-	for m, items := range byMask {
+	cut := func(m int, items []c17FamItem) {
 		for i := 0; i < len(items); i += c17PackSize {
 			j := i + c17PackSize
 			if j > len(items) {
 				j = len(items)
 			}
 			packs[m] = append(packs[m], &c17FamPack{items: items[i:j], parsed: mustParse(c17FamSelect(items[i:j]))})
+		}
+	}
+	for m := 0; m < 8; m++ {
+		for wi := range c17Wrappers {
+			cut(m, by[key{m, wi}])
+		}
+		if mixed {
+			cut(m, byMask[m])
 		}
 	}
 	return packs
@@ -95,7 +110,7 @@ func c17WrappedRun(c *core.Ctx) {
 		return
 	}
 	thorough := c.Thorough()
-	packs := c17WrappedPacks()
+	packs := c17WrappedPacks(thorough)
 	f := newC17Fam(c, "wrapped", "c17wrapped", false)
 	defer f.close()
 	f.defect = c17WrappedDefect
